@@ -13,10 +13,10 @@ are in `Props/TablesParse.lean`.
 Algorithm level (models `Model.FastPath`, `Model.Binary`; tie: component ops `fp`, `bin`, `sbin`):
 
 * `fastPath_exact_radix` — **complete**, all 35 radices, both float types, `radix` and `compact` builds;
-* `binary_correct` — **complete** for the model's `binary` (power-of-two radices and mixed bases), with the
-  exclusion `MarkerOk` that mirrors a defect of the code (`binary_marker_overflow_witness`: the invalid
-  marker `power2 + INVALID_FP` is not negative once `power2 ≥ 32768`; API-level input: radix 2,
-  `1` `0`×52 `1` `0`×10 `1` `e` `1001110001000000` (= 40000) parses to `0x8740000000000400` instead of `+∞`);
+* `binary_correct` — **complete** for the model's `binary` (power-of-two radices and mixed bases), without
+  exclusions since /repo commit 6cdda4d (before it the invalid marker `power2 + INVALID_FP` was not negative
+  once `power2 ≥ 32768`: radix 2, `1` `0`×52 `1` `0`×10 `1` `e` `1001110001000000` (= 40000) parsed to
+  `0x8740000000000400` instead of `+∞`; `binary_marker_overflow` keeps the input as a regression example);
 * `binary_decides` — without `many_digits` (or with `lossy`) `binary` always returns a valid float;
 * `binary_truncated_correct` — **complete**: a *valid* non-lossy answer for a truncated mantissa is `roundNE x`
   for every `x ∈ [M, M+1)·base^e` (the true value of the literal);
@@ -126,18 +126,18 @@ def ExpInRange (e : Int) : Prop := -(2 ^ 27 : Int) ≤ e ∧ e ≤ (2 ^ 27 : Int
 and `many_digits` arbitrary) is `roundNE (mantissa · base^exponent)`: shifting, the half-way/even test,
 denormals, underflow to zero, overflow to infinity. -/
 theorem binary_correct_f64 {base : Nat} (hb : IsPow2 base) (n : Num) (lossy : Bool)
-    (hm : n.mantissa < 2 ^ 64) (he : ExpInRange n.exponent) (hmk : MarkerOk FTy.f64 base n)
+    (hm : n.mantissa < 2 ^ 64) (he : ExpInRange n.exponent)
     {fp : ExtendedFloat80} (h : Binary.binary FTy.f64 base n lossy = .ok fp) (hv : 0 ≤ fp.exp) :
     extendedToFloat FTy.f64 fp =
       roundNE f64 (powFrac base n.exponent n.mantissa).1 (powFrac base n.exponent n.mantissa).2 :=
-  binary_exact layout_f64 hb n lossy hm he.1 he.2 hmk h hv
+  binary_exact layout_f64 hb n lossy hm he.1 he.2 h hv
 
 theorem binary_correct_f32 {base : Nat} (hb : IsPow2 base) (n : Num) (lossy : Bool)
-    (hm : n.mantissa < 2 ^ 64) (he : ExpInRange n.exponent) (hmk : MarkerOk FTy.f32 base n)
+    (hm : n.mantissa < 2 ^ 64) (he : ExpInRange n.exponent)
     {fp : ExtendedFloat80} (h : Binary.binary FTy.f32 base n lossy = .ok fp) (hv : 0 ≤ fp.exp) :
     extendedToFloat FTy.f32 fp =
       roundNE f32 (powFrac base n.exponent n.mantissa).1 (powFrac base n.exponent n.mantissa).2 :=
-  binary_exact layout_f32 hb n lossy hm he.1 he.2 hmk h hv
+  binary_exact layout_f32 hb n lossy hm he.1 he.2 h hv
 
 /-- `binary` always decides an untruncated mantissa (and everything under `lossy`) -/
 theorem binary_decides {F : FTy} (hF : F = FTy.f64 ∨ F = FTy.f32) {base : Nat} (hb : IsPow2 base) (n : Num)
@@ -148,16 +148,13 @@ theorem binary_decides {F : FTy} (hF : F = FTy.f64 ∨ F = FTy.f32) {base : Nat}
   · exact binary_valid layout_f64 hb n lossy hm he.1 he.2 hdec
   · exact binary_valid layout_f32 hb n lossy hm he.1 he.2 hdec
 
-/-- the exclusion is needed (`<<< 40000` is `· 2^40000`, the exact value): negation witness on the model (and on the implementation: op
-`bin f64 202020000000000000000000000000c 9223372036854776832 40000 1 0` answers `ok 8730000000000400 …`) -/
+/-- regression example for the defect fixed by /repo commit 6cdda4d (`<<< 40000` is `· 2^40000`, the exact value):
+the op `bin f64 202020000000000000000000000000c 9223372036854776832 40000 1 0` answered `ok 8730000000000400 …`
+(the non-negative "invalid" marker `41075 − 32768` taken for a float); model and implementation now answer `+∞`. -/
 theorem binary_marker_overflow :
-    Binary.binary FTy.f64 2 ⟨2 ^ 63 + 2 ^ 10, 40000, false, true⟩ false = .ok ⟨2 ^ 63 + 2 ^ 10, 8307⟩ ∧
-    extendedToFloat FTy.f64 ⟨2 ^ 63 + 2 ^ 10, 8307⟩ = 0x8730000000000400 ∧
-    roundNE f64 ((2 ^ 63 + 2 ^ 10) <<< 40000) 1 = 0x7ff0000000000000 ∧
-    ¬ MarkerOk FTy.f64 2 ⟨2 ^ 63 + 2 ^ 10, 40000, false, true⟩ := binary_marker_overflow_witness
-
-/-- `MarkerOk` holds on the whole range of finite results: `power2 < 32768` -/
-example : MarkerOk FTy.f64 16 ⟨0x8000000000000400, 200, false, true⟩ := by unfold MarkerOk; decide +kernel
+    Binary.binary FTy.f64 2 ⟨2 ^ 63 + 2 ^ 10, 40000, false, true⟩ false = .ok ⟨0, 2047⟩ ∧
+    extendedToFloat FTy.f64 ⟨0, 2047⟩ = 0x7ff0000000000000 ∧
+    roundNE f64 ((2 ^ 63 + 2 ^ 10) <<< 40000) 1 = 0x7ff0000000000000 := binary_marker_overflow_regression
 
 /-- non-vacuity of `binary_correct`: a denormal result, a tie to even, an undecided truncated mantissa -/
 example : Binary.binary FTy.f64 2 ⟨3, -1075, false, false⟩ false = .ok ⟨2, 0⟩ ∧
@@ -170,7 +167,7 @@ example : Binary.binary FTy.f64 2 ⟨3, -1075, false, false⟩ false = .ok ⟨2,
 `roundNE x` — provided the mantissa fills the word up to fewer leading zeros than bits are shifted out
 (`clz(M) < shift`; true whenever `M` holds `u64_step` digits: at most 9 leading zeros against a shift `≥ 11`). -/
 theorem binary_truncated_correct {F : FTy} (hF : F = FTy.f64 ∨ F = FTy.f32) {base : Nat} (hb : IsPow2 base)
-    (n : Num) (hm : n.mantissa < 2 ^ 64) (he : ExpInRange n.exponent) (hmk : MarkerOk F base n)
+    (n : Num) (hm : n.mantissa < 2 ^ 64) (he : ExpInRange n.exponent)
     (c r : Nat) (hr : r < c) (hmany : n.manyDigits = false → r = 0) (hM0 : n.mantissa ≠ 0)
     (hcs : clz64 n.mantissa < shiftOf F.fmt.p (Binary.calculatePower2 F base n.exponent (clz64 n.mantissa)))
     {fp : ExtendedFloat80} (h : Binary.binary F base n false = .ok fp) (hv : 0 ≤ fp.exp) :
@@ -178,8 +175,8 @@ theorem binary_truncated_correct {F : FTy} (hF : F = FTy.f64 ∨ F = FTy.f32) {b
       roundNE F.fmt (powFrac base n.exponent (n.mantissa * c + r)).1
         ((powFrac base n.exponent (n.mantissa * c + r)).2 * c) := by
   rcases hF with h' | h' <;> subst h'
-  · exact binary_truncated layout_f64 hb n hm he.1 he.2 hmk c r hr hmany hM0 hcs h hv
-  · exact binary_truncated layout_f32 hb n hm he.1 he.2 hmk c r hr hmany hM0 hcs h hv
+  · exact binary_truncated layout_f64 hb n hm he.1 he.2 c r hr hmany hM0 hcs h hv
+  · exact binary_truncated layout_f32 hb n hm he.1 he.2 c r hr hmany hM0 hcs h hv
 
 /-- the significant digit values of a literal: leading zeros of integer ++ fraction dropped -/
 def sigDigits (radix : Nat) (integer : List Nat) (fraction : Option (List Nat)) : List Nat :=
